@@ -32,7 +32,7 @@ func init() {
 		},
 		Quick:    150000,
 		Thorough: 3000000,
-		Require:  []string{"server.newConnToKnownPeer", "pool.recyclingOn", "copy.duplicate", "copy.exactlyAtBoundary", "copy.fresh.nearBoundary", "dgram.dup", "app.separateResponse", "handler.tookRequestOverAndReleasedIt", "lock.moreWaitersThanSixteenBits"},
+		Require:  []string{"server.newConnToKnownPeer", "pool.recyclingOn", "copy.duplicate", "copy.exactlyAtBoundary", "copy.fresh.nearBoundary", "dgram.dup", "app.separateResponse", "handler.tookRequestOverAndReleasedIt", "lock.moreWaitersThanSixteenBits", "handler.explicitEmpty"},
 		Assume: []string{
 			"a copy arriving exactly 247 s after the first is accepted as either duplicate or fresh (the statement is silent on equality)",
 			"in boundary mode handlers return at once, so 'first copy arrived' and 'reply stored' are the same instant; concurrency mode never probes the boundary",
